@@ -247,10 +247,10 @@ def wake_families(run, families, n, reader_relaxed=False, mode="th", oracle="lin
         cache = {}
         # first a systematic walk over the orders of the synchronisation steps (sched.Dfs: complete when the budget allows,
         # which it does for two-call pools and the metadata pools), then random schedules at single-operation granularity
-        budget = dfs if dfs is not None else (700 if (len(calls) == 2 or all(c["op"] in ("sm", "dm", "rm") for c in calls)) else (100 if run.tier == "quick" else 1500))
+        budget = dfs if dfs is not None else (700 if (len(calls) == 2 or all(c["op"] in ("sm", "dm", "rm") for c in calls)) else (100 if run.tier == "quick" else 800))
         # ... and a preemption-bounded walk (a thread stopped INSIDE its critical section, where the calls conflict)
         walkers = ([sched.Dfs(seed=run.seed, budget=budget)] if budget else []) + \
-                  [sched.Dfs(seed=run.seed, budget=150 if run.tier == "quick" else 1500, conflicts=True, max_preempt=2)]
+                  [sched.Dfs(seed=run.seed, budget=150 if run.tier == "quick" else 800, conflicts=True, max_preempt=2)]
         walker = walkers.pop(0)
         k = 0
         while True:
